@@ -208,8 +208,13 @@ class Gen:
             elif k == "match":
                 subj = rs.choice([["in", "d"], ["in", "u"]] + [["sig", x] for x in env["read_vec"][:2]] + [["var", x] for x in env["vars"][:1]])
                 ks = rs.sample(list(range(16)), rs.range(1, 3))
+                full = rs.below(4) == 0
+                if full:
+                    # every value of a 2-bit selector listed, usually without a default (a VHDL case still needs others)
+                    subj = ["idx2", rs.choice(["d", "u"]), rs.below(3)]
+                    ks = rs.sample(list(range(4)), 4)
                 arms = [[kk, self.scoped(env, depth + 1, budget)] for kk in ks]
-                dflt = self.scoped(env, depth + 1, budget) if rs.below(3) else None
+                dflt = self.scoped(env, depth + 1, budget) if rs.below(3) and not (full and rs.below(4)) else None
                 out.append(["match", subj, arms, dflt])
             else:
                 nn = rs.range(2, 4)
@@ -354,6 +359,14 @@ class Gen:
                 else:
                     body += self.block(env, 0, budget)
             prog["ctxs"].append({"kind": kind, "name": c["name"], "owns": c["owns"], "body": body, "always": always, "always_vals": always_vals, "has_vars": has_vars})
+        # wrapper options of the clocked contexts: a reset (never active in this workload: reset behaviour is C04's
+        # subject, but the std wrapper takes another code path with one) and a run-time step condition (input `en`):
+        # a step in which the condition is false executes nothing and every target, pushed ones included, holds
+        prog["rst_low"] = rs.below(2)
+        for c in prog["ctxs"]:
+            if c["kind"] == "clocked":
+                c["reset"] = rs.choice([None, None, "sync", "async"])
+                c["step"] = rs.below(3) == 0
         return prog
 
 
@@ -531,6 +544,8 @@ def render(prog, attrs=None):
         "    c = Port.input(Bit)",
         "    d = Port.input(Unsigned[4])",
         "    u = Port.input(Unsigned[4])",
+        "    en = Port.input(Bit)",
+        "    rst = Port.input(Bit)",
     ]
     for o in VEC_OUT:
         L.append(f"    {o} = Port.output(Unsigned[4], default=0)")
@@ -552,7 +567,11 @@ def render(prog, attrs=None):
     kw = (", attributes=" + repr(attrs)) if attrs else ""
     for c in prog["ctxs"]:
         if c["kind"] == "clocked":
-            L.append(f"        @std.sequential({clk}{kw})")
+            rst = ""
+            if c.get("reset"):
+                rst = f", std.Reset(self.rst, active_low={bool(prog.get('rst_low'))}, is_async={c['reset'] == 'async'})"
+            step = ", step_cond=lambda: self.en" if c.get("step") else ""
+            L.append(f"        @std.sequential({clk}{rst}{step}{kw})")
         elif c["kind"] == "comb":
             L.append("        @std.sequential")
         else:
